@@ -2,25 +2,11 @@
    instantiating the generic search of Model/Search.v with the McSystem transition function. *)
 From ASV Require Import Base.Util Base.Msg Base.Log Model.Store Model.McSys Model.Search.
 
-Section McRun.
+Definition pairN_eqb {A} (e : A -> A -> bool) (x y : N * A) : bool := N.eqb (fst x) (fst y) && e (snd x) (snd y).
+
+Section StoreEq.
   Context {T : Type}.
-  Variable tleb : T -> T -> bool.
-  Variable teqb : T -> T -> bool.      (* equality of time values (OrderedFloat Eq) *)
-  Variable tgt0 : T -> bool.
-  Variable teq0 : T -> bool.
-  Variable t0 : T.
-  Variable clock : N -> T -> T.
-  Context {PS : Type}.
-  Variable ps_eqb : PS -> PS -> bool.  (* eq_with_dyn *)
-  Variable handler : N -> PS -> input -> T -> (nat -> T) -> PS * list (action T).
-  Variable DS : Type.
-  Variable mc_rand : DS -> nat -> T.
-  Variable ds_of : @mcstate T PS -> DS.
-
-  Notation mcsys := (@mcsys T PS).
-  Notation mcstate := (@mcstate T PS).
-  Notation logentry := (logentry T).
-
+  Variable teqb : T -> T -> bool.
   (* ---------------- the checker's state equality: McState::eq = events == && node_states == ---------------- *)
   Definition dopts_eqb (a b : dopts T) : bool :=
     match a, b with
@@ -34,7 +20,6 @@ Section McRun.
     | ETimer p1 n1 d1, ETimer p2 n2 d2 => N.eqb p1 p2 && N.eqb n1 n2 && teqb d1 d2
     | _, _ => false
     end.
-  Definition pairN_eqb {A} (e : A -> A -> bool) (x y : N * A) : bool := N.eqb (fst x) (fst y) && e (snd x) (snd y).
   Definition tinfo_eqb (a b : tinfo T) : bool :=
     N.eqb (ti_proc a) (ti_proc b) && teqb (ti_delay a) (ti_delay b) && list_eqb N.eqb (ti_blockers a) (ti_blockers b).
   (* derived Eq on PendingEvents: all five fields, including the resolver's indexes *)
@@ -46,23 +31,44 @@ Section McRun.
     && list_eqb (fun x y => is_eq (mkey_cmp (fst x) (fst y)) && list_eqb N.eqb (snd x) (snd y)) (r_msgs a) (r_msgs b)
     && list_eqb (pairN_eqb (list_eqb N.eqb)) (r_ptimers a) (r_ptimers b)
     && N.eqb (next a) (next b).
+End StoreEq.
+
+Section McRun.
+  Context {T : Type}.
+  Context {SE : Type} (so : @store_ops T SE).
+  Variable teqb : T -> T -> bool.      (* equality of time values (OrderedFloat Eq) *)
+  Variable tgt0 : T -> bool.
+  Variable teq0 : T -> bool.
+  Variable t0 : T.
+  Variable clock : N -> T -> T.
+  Context {PS : Type}.
+  Variable ps_eqb : PS -> PS -> bool.  (* eq_with_dyn *)
+  Variable handler : N -> PS -> input -> T -> (nat -> T) -> PS * list (action T).
+  Variable DS : Type.
+  Variable mc_rand : DS -> nat -> T.
+  Variable ds_of : @mcstate T SE PS -> DS.
+
+  Notation mcsys := (@mcsys T SE PS).
+  Notation mcstate := (@mcstate T SE PS).
+  Notation logentry := (logentry T).
+
   (* hand-written Eq on ProcessEntryState: process state and local outbox only *)
   Definition pentry_eqb (a b : pentry T PS) : bool :=
     ps_eqb (pe_state a) (pe_state b) && list_eqb msg_eqb (pe_outbox a) (pe_outbox b).
   Definition nodestate_eqb (a b : @mcnodestate T PS) : bool :=
     list_eqb (pairN_eqb pentry_eqb) (ns_procs a) (ns_procs b) && Bool.eqb (ns_crashed a) (ns_crashed b).
   Definition mcstate_eqb (a b : mcstate) : bool :=
-    store_eqb (st_events a) (st_events b) && list_eqb (pairN_eqb nodestate_eqb) (st_nodes a) (st_nodes b).
+    so_eqb so teqb (st_events a) (st_events b) && list_eqb (pairN_eqb nodestate_eqb) (st_nodes a) (st_nodes b).
 
   (* ---------------- the graph the strategies walk ---------------- *)
   (* sys0 supplies what McState does not carry: clock skews and the ordering mode *)
   Definition mc_expand (sys0 : mcsys) (st : mcstate) : result (list mcstate) :=
     do s1 <- set_state sys0 st;
-    do (_, l) <- expand_sys tleb tgt0 teq0 t0 clock handler DS mc_rand ds_of s1;
+    do (_, l) <- expand_sys so tgt0 teq0 t0 clock handler DS mc_rand ds_of s1;
     Ok l.
   Definition mc_enabled_ok (sys0 : mcsys) (st : mcstate) : result unit :=
-    do _ <- offered (st_events st) (s_mf sys0); Ok tt.
-  Definition mc_no_events (st : mcstate) : result bool := is_empty (st_events st).
+    do _ <- so_offered so (st_events st) (s_mf sys0); Ok tt.
+  Definition mc_no_events (st : mcstate) : result bool := so_is_empty so (st_events st).
 
   Record preds := {
     pr_collect : mcstate -> bool;
@@ -85,7 +91,7 @@ Section McRun.
     let initial_mode := s_mf sys in
     let s1 := {| s_nodes := s_nodes sys; s_net := s_net sys; s_events := s_events sys; s_depth := s_depth sys;
                  s_mf := s_mf sys; s_trace := s_trace sys ++ [LMcStarted] |} in
-    do s2 <- cb_run tleb tgt0 teq0 t0 clock handler DS mc_rand ds_of s1 cb;
+    do s2 <- cb_run so tgt0 teq0 t0 clock handler DS mc_rand ds_of s1 cb;
     let start := get_state s2 in
     let ss1 := mark_visited mcstate mcstate_eqb (cf_vm cf) ss start in
     let out := run_strategy mcstate mcstate_eqb (mc_expand s2) (mc_enabled_ok s2) mc_no_events
